@@ -153,3 +153,20 @@ func mustJSON(v interface{}) []byte {
 	}
 	return b
 }
+
+func toBytes(a []int) []byte {
+	b := make([]byte, len(a))
+	for i, v := range a {
+		b[i] = byte(v)
+	}
+	return b
+}
+
+func toInts(b []byte) []int {
+	a := make([]int, len(b))
+	for i, v := range b {
+		a[i] = int(v)
+	}
+	return a
+}
+
